@@ -362,6 +362,55 @@ def run_c07(ctx):
         assumptions=['PAT and PMT PIDs are merged as one sequence (a PMT is recognised only after its PAT)', 'delivered data compared by digest of the whole DemuxerData'])
 
 
+def run_c19(ctx):
+    import random
+    build_harness(ctx)
+    quick = ctx.tier == 'quick'
+    rp = random.Random(ctx.seed)
+    model_check(ctx, 'MC_Demux', 'Demux_c02_psi.cfg')
+    clean = demux_scenarios(ctx, ['Demux_gen_psi_quick.cfg', 'Demux_gen_pes_quick.cfg'], 'sg', sample=400 if quick else 10000)
+    rnd = harness_gen(ctx, 'demux', 150 if quick else 5000, ctx.seed, 3)
+    scs = []
+    for s in clean + rnd:
+        pids = sorted({p['pid'] for p in s['pkts']})
+        preds = ['all', 'none', 'pusi', 'nopusi', 'cceven', 'rai', 'haf', 'random', 'pid:%d' % rp.choice(pids)]
+        for pr in (rp.sample(preds, 3) if quick else preds):
+            v = dict(s)
+            v['skip'] = pr
+            v['kind'] = 'skip'
+            v['sid'] = '%s-%s' % (s['sid'], pr.replace(':', ''))
+            scs.append(v)
+    return pipeline(
+        ctx, 'Mon_C19', 'skip', scs,
+        rule='scenario = well-formed stream x skip predicate {all, none, pusi, nopusi, cc even, rai flag, has AF, random per packet, by PID}; each '
+             'scenario: base run, skipper run, filtered-stream run, observer parser run, replacing parser run, failing parser run on the real Demuxer',
+        assumptions=['the filtered stream is built by evaluating the predicate on the reference multiplexer\'s own packet descriptions',
+                     'failing-parser runs are recorded but only judged for termination (the EOF drain logs instead of returning parser errors)'])
+
+
+def run_c20(ctx):
+    build_harness(ctx)
+    quick = ctx.tier == 'quick'
+    model_check(ctx, 'MC_Demux', 'Demux_c02_psi.cfg')
+    clean = demux_scenarios(ctx, ['Demux_gen_psi_quick.cfg', 'Demux_gen_pes_quick.cfg'], 'rg', sample=250 if quick else 8000)
+    rnd = harness_gen(ctx, 'demux', 60 if quick else 3000, ctx.seed, 3)
+    scs = []
+    for j, s in enumerate(clean + rnd):
+        for psize in ((0, -1) if len(s['pkts']) >= 1 else (0,)):
+            v = dict(s)
+            v['kind'] = 'rewind'
+            v['run'] = {'psize': psize, 'api': 'all' if (not quick or j % 4 == 0) else 'sample'}
+            v['sid'] = '%s-%s' % (s['sid'], 'auto' if psize == -1 else 'x188')
+            scs.append(v)
+    return pipeline(
+        ctx, 'Mon_C20', 'rewind', scs,
+        rule='scenario = well-formed stream (PAT before PMT) x {explicit 188, auto-detected packet size}; per scenario: every number k of NextData '
+             'calls before Rewind (0..total+1; sampled to 10 for 3/4 of the quick scenarios), NextPacket counts over the packet range, one mixed and '
+             'one double-rewind plan; each compared with a fresh Demuxer',
+        assumptions=['streams whose PAT precedes their PMTs (the program map is kept across Rewind on purpose)',
+                     'auto-detection needs two packets: single-packet streams run with explicit size only'])
+
+
 # ------------------------------------------------------------------ C18: I/O failures surfaced
 
 def run_c18(ctx):
@@ -386,4 +435,6 @@ PROPS = {
     'C02': run_c02,
     'C06': run_c06,
     'C07': run_c07,
+    'C19': run_c19,
+    'C20': run_c20,
 }
